@@ -210,7 +210,7 @@ theorem C11_populate_fresh (orc : Oracle) (locale : Str) (args : List (Str × PV
   populate_fresh orc locale args ha v v' h hv
 
 /-- `resolve_foreign_keys` keeps a fresh world fresh (any fuel) -/
-theorem C11_resolve_fresh (orc : Oracle) (dflt : Str) (fuel : Nat) (paths : List (Str × KeyPath)) (w w' : World)
+theorem C11_resolve_fresh (orc : Oracle) (dflt : Foreign.Fallbacks) (fuel : Nat) (paths : List (Str × KeyPath)) (w w' : World)
     (h : Foreign.resolveAll orc dflt fuel paths w = .ok w')
     (hw : ∀ ns ∈ w.nss, ∀ l ∈ ns.locales, FreshSK l.keys = true) :
     ∀ ns ∈ w'.nss, ∀ l ∈ ns.locales, FreshSK l.keys = true :=
